@@ -41,7 +41,7 @@ META = {
             "0xBC data), enable on/off per segment, hold on filler words, per-word stall 0-4, invalid gaps with COM look-alikes, "
             "clear pulses in gaps; DUT kind scrambler/descrambler/chain",
 }
-TIERS = {"quick": {"runs": 2400, "wall": 70}, "thorough": {"runs": 40000, "wall": 900}}
+TIERS = {"quick": {"runs": 4800, "wall": 70}, "thorough": {"runs": 40000, "wall": 900}}
 
 COMW = usb3.COM
 
